@@ -1,5 +1,6 @@
-(* C28: TrackLocalStaticSample.WriteSample (track_local_static.go) together with
-   the pion/rtp packetizer/sequencer contract it drives.  The transcription is
+(* C28: TrackLocalStaticSample.WriteSample and GeneratePadding
+   (track_local_static.go) together with the pion/rtp packetizer/sequencer
+   contract they drive.  The transcription is
    written once over an abstract arithmetic [arith] for the float64 expressions;
    two instances follow: [float_arith] (IEEE-754 binary64, round to nearest
    even, as rationals) used for the correspondence check, and [exact_arith]
@@ -46,6 +47,14 @@ Record sample := mkSample {
 
 Record rpkt := mkRpkt { k_seq : N; k_ts : N }.
 
+(* one call on the track: WriteSample(x) or GeneratePadding(n) *)
+Inductive op := OSample (x : sample) | OPad (n : N).
+
+(* for the specification a padding burst of n packets counts as a sample of
+   duration zero cut into n packets: it consumes sequence numbers, not time *)
+Definition as_sample (o : op) : sample :=
+  match o with OSample x => x | OPad n => mkSample 0 0 (N.to_nat n) end.
+
 Section Track.
   Variable a : arith.
   Variable rate : N.   (* codec.ClockRate *)
@@ -87,10 +96,26 @@ Section Track.
     let (q2, pkts) := emit (s_npk x) q1 ts1 in
     (mkSt remainder (u32 (ts1 + curTicks)) q2, pkts).
 
-  Fixpoint run (s : st) (xs : list sample) : list (list rpkt) :=
-    match xs with
+  (* GeneratePadding(samples) -> packetizer.GeneratePadding (pion/rtp, assumed
+     contract, transcribed):
+       if samples == 0 { return nil }
+       for i := 0; i < int(samples); i++ {
+         packets[i] = {SequenceNumber: Sequencer.NextSequenceNumber(), Timestamp: p.Timestamp, Padding} }
+     the packetizer's timestamp and s.remainder are not touched. *)
+  Definition gen_padding (s : st) (n : N) : st * list rpkt :=
+    let (q2, pkts) := emit (N.to_nat n) (st_seq s) (st_ts s) in
+    (mkSt (st_rem s) (st_ts s) q2, pkts).
+
+  Definition step (s : st) (o : op) : st * list rpkt :=
+    match o with
+    | OSample x => write_sample s x
+    | OPad n => gen_padding s n
+    end.
+
+  Fixpoint run (s : st) (os : list op) : list (list rpkt) :=
+    match os with
     | [] => []
-    | x :: t => let (s', pk) := write_sample s x in pk :: run s' t
+    | o :: t => let (s', pk) := step s o in pk :: run s' t
     end.
 
   (* WithRTPTimestamp(ts0), WithRTPSequenceNumber(seq0): NewFixedSequencer stores seq0-1 *)
